@@ -264,6 +264,9 @@ def plan(prop, tier, seed):
         legs.append(lambda: lab_leg("LabSOL", 1, 8, MICRO, seed, env_extra=skipadm, overrides=None if q else {"SolCases": "SOL_Cases", "FromCases": "SOL_FromFull"}, tag="micro"))
     if prop in ("C05", "C12"):
         legs.append(lambda: lab_leg("LabSOL", 1, 8, NANOSOL, seed, env_extra=skipadm, tag="nano"))
+    if prop in ("C12", "C03", "C10"):
+        # a stock changed by a transfer, a top-up or an earlier withdrawal, then diluted as requested
+        legs.append(lambda: lab_leg("LabSOL3", 2, 8, REALISTIC, seed))
     if prop in ("C05", "C04", "C10"):
         # a container that was a solvent, then changed its composition, then is a solvent again
         legs.append(lambda: lab_leg("LabSOL2", 3, 1, REALISTIC, seed))
